@@ -1254,3 +1254,28 @@ Qed.
 Theorem not_ready_is_refused : forall nd b,
   step nd (ORpcDown b) = (nd, RErr).
 Proof. reflexivity. Qed.
+
+(* ====================================================================================== *)
+(* ---------- where a position advance can come from ---------- *)
+
+(* the synced map changes only when an entry that is not filtered is applied, and it then records exactly that entry's
+   own (cluster, term, index): a replayed log entry, a SUCCESSFUL ApplyRemoteSnap of that very snapshot, or a skipped
+   snapshot.  A TransferRemoteSnap request never moves a position, whatever the status table holds; neither does a
+   failed apply. *)
+Theorem position_advance_source : forall st le,
+  r_synced (apply_entry st le) <> r_synced st ->
+  exists e, is_already_applied (r_synced st) e = false /\
+    r_synced (apply_entry st le) = postprocess (r_synced st) e /\
+    (le = LSync e \/ (exists j, le = LSnap e (Some j)) \/ le = LSkip e).
+Proof.
+  intros st [e|t p|e|e content|e] H; cbn [apply_entry] in *.
+  - destruct (is_already_applied (r_synced st) e) eqn:F; [contradiction|]. exists e. repeat split; auto.
+  - contradiction.
+  - contradiction.
+  - destruct (is_already_applied (r_synced st) e) eqn:F; [contradiction|].
+    destruct content as [j|]; [|contradiction]. exists e. repeat split; eauto.
+  - destruct (is_already_applied (r_synced st) e) eqn:F; [contradiction|]. exists e. repeat split; auto.
+Qed.
+
+Theorem transfer_never_moves_position : forall st e, apply_entry st (LXfer e) = st.
+Proof. reflexivity. Qed.
